@@ -11,11 +11,16 @@ package cluster
 // exercised without starting controller, transport and slot Raft.
 
 import (
+	"context"
+	"errors"
+
 	channelstore "github.com/WuKongIM/WuKongIM/pkg/channel/store"
 	"github.com/WuKongIM/WuKongIM/pkg/cluster/channels"
 	"github.com/WuKongIM/WuKongIM/pkg/cluster/control"
 	"github.com/WuKongIM/WuKongIM/pkg/cluster/routing"
 	metadb "github.com/WuKongIM/WuKongIM/pkg/db/meta"
+	"github.com/WuKongIM/WuKongIM/pkg/slot/multiraft"
+	slotproxy "github.com/WuKongIM/WuKongIM/pkg/slot/proxy"
 )
 
 // VerifNewReadNode returns the partially constructed Node and the hash slot of key.
@@ -43,4 +48,37 @@ func VerifNewReadNode(factory channelstore.Factory, metaDB *metadb.DB, chans *ch
 		return nil, 0, err
 	}
 	return n, route.HashSlot, nil
+}
+
+// VerifEnableRetentionGC gives the partially constructed Node what
+// RunChannelRetentionGCOnce (channel_retention_physical.go) consumes besides the
+// channel service: the MessageDB factory whose channel catalog it pages, the
+// slot proxy it asks for the authoritative runtime metadata (over a stand-in
+// slot layout in which the local node owns the single slot, so the proxy reads
+// the given metadata DB) and the ChannelRetention settings.
+func VerifEnableRetentionGC(n *Node, store *channelstore.MessageDBFactory, metaDB *metadb.DB, nodeID uint64, batch, maxTrimMessages, maxTrimBytes int) {
+	n.defaultChannelStore = store
+	n.defaultSlotProxy = slotproxy.New(verifLocalSlots{node: multiraft.NodeID(nodeID)}, metaDB)
+	n.cfg.ChannelRetention.ChannelBatchSize = batch
+	n.cfg.ChannelRetention.MaxTrimMessages = maxTrimMessages
+	n.cfg.ChannelRetention.MaxTrimBytes = maxTrimBytes
+}
+
+// verifLocalSlots is the slotproxy.Cluster stand-in: one slot, led by the local node.
+type verifLocalSlots struct{ node multiraft.NodeID }
+
+func (v verifLocalSlots) SlotIDs() []multiraft.SlotID           { return []multiraft.SlotID{1} }
+func (v verifLocalSlots) SlotForKey(string) multiraft.SlotID    { return 1 }
+func (v verifLocalSlots) HashSlotForKey(key string) uint16      { return routing.HashSlotForKey(key, 4) }
+func (v verifLocalSlots) HashSlotsOf(multiraft.SlotID) []uint16 { return []uint16{0, 1, 2, 3} }
+func (v verifLocalSlots) HashSlotTableVersion() uint64          { return 1 }
+func (v verifLocalSlots) LeaderOf(multiraft.SlotID) (multiraft.NodeID, error) {
+	return v.node, nil
+}
+func (v verifLocalSlots) IsLocal(id multiraft.NodeID) bool { return id == v.node }
+func (v verifLocalSlots) PeersForSlot(multiraft.SlotID) []multiraft.NodeID {
+	return []multiraft.NodeID{v.node}
+}
+func (v verifLocalSlots) RPCService(context.Context, multiraft.NodeID, multiraft.SlotID, uint8, []byte) ([]byte, error) {
+	return nil, errors.New("verif: no remote slot owner in this world")
 }
